@@ -1543,3 +1543,244 @@ Proof.
   unfold seq_agrees, seq_spec_ok. rewrite !forallb_forall. intros Hwf H p Hp.
   destruct (Hwf p Hp) as [A [B C]]. apply doc_agree_implies_spec_ok; auto.
 Qed.
+
+(** * The specification does not depend on how character data is cut into pieces *)
+
+Lemma xs_append_nil_r s : (s ++ "")%string = s.
+Proof. induction s as [|c s IH]; cbn; [reflexivity|now rewrite IH]. Qed.
+
+Lemma xs_append_assoc s1 s2 s3 : ((s1 ++ s2) ++ s3)%string = (s1 ++ (s2 ++ s3))%string.
+Proof. induction s1 as [|c s IH]; cbn; [reflexivity|now rewrite IH]. Qed.
+
+Lemma str_empty_append s1 s2 : str_empty (s1 ++ s2) = str_empty s1 && str_empty s2.
+Proof. destruct s1; reflexivity. Qed.
+
+Lemma prefix_refl s : String.prefix s s = true.
+Proof. induction s as [|c s IH]; cbn; [reflexivity|]. destruct (ascii_dec c c); [exact IH|congruence]. Qed.
+
+Lemma prefix_append s x : String.prefix s (s ++ x) = true.
+Proof.
+  induction s as [|c s IH]; cbn; [now destruct x|]. destruct (ascii_dec c c); [exact IH|congruence].
+Qed.
+
+Lemma prefix_append_l s a b : String.prefix (s ++ a) (s ++ b) = String.prefix a b.
+Proof. induction s as [|c s IH]; cbn; [reflexivity|]. destruct (ascii_dec c c); [exact IH|congruence]. Qed.
+
+Lemma token_eqb_refl t : token_eqb t t = true.
+Proof. now apply token_eqb_eq. Qed.
+
+(** The head of a normal form is never an empty piece of character data, and
+    never character data followed by character data. *)
+Inductive nf : list token -> Prop :=
+| nf_nil : nf []
+| nf_text s r : str_empty s = false -> nf r -> (forall s' r', r <> TText s' :: r') -> nf (TText s :: r)
+| nf_other x r : (forall s, x <> TText s) -> nf r -> nf (x :: r).
+
+Lemma norm_stream_nf l : nf (norm_stream l).
+Proof.
+  induction l as [|x r IH]; [constructor|].
+  destruct x as [n a|n|s|s|tg s|s]; cbn [norm_stream]; try (apply nf_other; [intros ?; discriminate|exact IH]).
+  destruct (norm_stream r) as [|y r'] eqn:E.
+  - destruct (str_empty s) eqn:Es; [constructor|]. apply nf_text; [exact Es|constructor|intros; discriminate].
+  - destruct y as [n a|n|s'|s'|tg s'|s'];
+      try (destruct (str_empty s) eqn:Es; [exact IH|];
+           apply nf_text; [exact Es|exact IH|intros; discriminate]).
+    inversion IH as [|s0 r0 He Hr Hn|x0 r0 Hx Hr]; subst.
+    + apply nf_text; [|exact Hr|exact Hn]. rewrite str_empty_append, He. apply Bool.andb_false_r.
+    + exfalso. now apply (Hx s').
+Qed.
+
+Lemma norm_stream_of_nf l : nf l -> (forall n a, In (TStart n a) l -> strip_decls a = a) -> norm_stream l = l.
+Proof.
+  intros H. induction H as [|s r He Hr IH Hn|x r Hx Hr IH]; intros Hd; [reflexivity| |].
+  - cbn [norm_stream]. rewrite IH by (intros n a Hi; apply (Hd n a); now right).
+    destruct r as [|y r']; [now rewrite He|].
+    destruct y; try (now rewrite He). exfalso. now apply (Hn s0 r').
+  - assert (IHr : norm_stream r = r) by (apply IH; intros n a Hi; apply (Hd n a); now right).
+    destruct x as [n a|n|s|s|tg s|s]; cbn [norm_stream]; rewrite ?IHr; try reflexivity.
+    + rewrite (Hd n a); [reflexivity|now left].
+    + exfalso. now apply (Hx s).
+Qed.
+
+Lemma norm_stream_starts l n a : In (TStart n a) (norm_stream l) -> strip_decls a = a.
+Proof.
+  revert n a. induction l as [|x r IH]; intros n a H; [destruct H|].
+  destruct x as [m b|m|s|s|tg s|s]; cbn [norm_stream] in H;
+    try (destruct H as [H|H]; [discriminate|exact (IH n a H)]).
+  - destruct H as [H|H]; [|exact (IH n a H)]. injection H as <- <-. apply strip_decls_idem.
+  - destruct (norm_stream r) as [|y r'] eqn:E.
+    + destruct (str_empty s); [destruct H|]. destruct H as [H|[]]. discriminate.
+    + destruct y as [m b|m|s'|s'|tg s'|s'];
+        try (destruct (str_empty s); [exact (IH n a H)|]; destruct H as [H|H]; [discriminate|exact (IH n a H)]).
+      destruct H as [H|H]; [discriminate|]. apply (IH n a). now right.
+Qed.
+
+(** [norm_stream] is idempotent: it yields a normal form. *)
+Lemma norm_stream_idem l : norm_stream (norm_stream l) = norm_stream l.
+Proof.
+  apply norm_stream_of_nf; [apply norm_stream_nf|]. intros n a H. now apply (norm_stream_starts l n a).
+Qed.
+
+(** It forgets namespace declarations... *)
+Lemma norm_stream_strip l : norm_stream (strip_stream l) = norm_stream l.
+Proof.
+  induction l as [|x r IH]; [reflexivity|]. unfold strip_stream in *. cbn [map].
+  destruct x as [n a|n|s|s|tg s|s]; cbn [strip_token norm_stream]; rewrite IH; try reflexivity.
+  now rewrite strip_decls_idem.
+Qed.
+
+(** ...and where a run of character data is cut: one piece or two, anywhere in
+    the stream, is the same stream. *)
+Lemma norm_stream_segmentation l1 s1 s2 l2 :
+  norm_stream (l1 ++ TText (s1 ++ s2) :: l2) = norm_stream (l1 ++ TText s1 :: TText s2 :: l2).
+Proof.
+  induction l1 as [|x r IH].
+  - cbn [app norm_stream]. destruct (norm_stream l2) as [|y r'] eqn:E.
+    + rewrite str_empty_append. destruct (str_empty s2) eqn:E2.
+      * apply str_empty_spec in E2. subst s2. rewrite xs_append_nil_r, Bool.andb_true_r. reflexivity.
+      * rewrite Bool.andb_false_r. reflexivity.
+    + destruct y as [n a|n|s'|s'|tg s'|s']; try
+        (rewrite str_empty_append; destruct (str_empty s2) eqn:E2;
+         [apply str_empty_spec in E2; subst s2; rewrite xs_append_nil_r, Bool.andb_true_r; reflexivity
+         |rewrite Bool.andb_false_r; reflexivity]).
+      now rewrite xs_append_assoc.
+  - cbn [app]. destruct x as [n a|n|s|s|tg s|s]; cbn [norm_stream]; now rewrite IH.
+Qed.
+
+(** Every beginning of a stream is a beginning of it in the sense of [tprefix]:
+    a reader that keeps the pieces of character data apart (as the unchanged
+    code does) is accepted at every point of its progress... *)
+Lemma tprefix_nf_head a b :
+  tprefix a b = true ->
+  match a with
+  | TText s :: a' => exists s' b', b = TText s' :: b' /\
+                     ((a' = [] /\ String.prefix s s' = true) \/ (s = s' /\ tprefix a' b' = true))
+  | x :: a' => exists y b', b = y :: b' /\ token_eqb x y = true /\ tprefix a' b' = true
+  | [] => True
+  end.
+Proof.
+  destruct a as [|x a']; [trivial|]. cbn [tprefix]. destruct b as [|y b']; [destruct x; discriminate|].
+  destruct x as [n a|n|s|s|tg s|s]; intros H;
+    try (apply Bool.andb_true_iff in H as [H1 H2]; exists y, b'; now repeat split).
+  destruct y as [n a|n|s'|s'|tg s'|s']; try (apply Bool.andb_true_iff in H as [H1 _]; discriminate).
+  exists s', b'. split; [reflexivity|]. destruct a' as [|z a''].
+  - left. now split.
+  - right. apply Bool.andb_true_iff in H as [H1 H2]. cbn [token_eqb] in H1. apply String.eqb_eq in H1. now split.
+Qed.
+
+Lemma tprefix_cons_other x a b :
+  (forall s, x <> TText s) -> tprefix (x :: a) (x :: b) = tprefix a b.
+Proof.
+  intros Hx. cbn [tprefix]. rewrite token_eqb_refl.
+  destruct x; try reflexivity. exfalso. now apply (Hx s).
+Qed.
+
+Lemma tprefix_firstn l : forall k, tprefix (norm_stream (firstn k l)) (norm_stream l) = true.
+Proof.
+  induction l as [|x r IH]; intros k; [now destruct k|].
+  destruct k as [|k]; [reflexivity|]. cbn [firstn]. specialize (IH k).
+  destruct x as [n a|n|s|s|tg s|s]; cbn [norm_stream];
+    try (rewrite tprefix_cons_other by (intros ?; discriminate); exact IH).
+  pose proof (norm_stream_nf (firstn k r)) as NA. pose proof (norm_stream_nf r) as NB.
+  pose proof (tprefix_nf_head _ _ IH) as Hh.
+  destruct (norm_stream (firstn k r)) as [|y A'] eqn:EA.
+  - (* nothing delivered after the piece *)
+    destruct (str_empty s) eqn:Es; [reflexivity|].
+    destruct (norm_stream r) as [|z B'] eqn:EB.
+    + cbn [tprefix]. apply prefix_refl.
+    + destruct z; try (cbn [tprefix]; apply prefix_refl).
+      cbn [tprefix]. apply prefix_append.
+  - destruct y as [n a|n|s0|s0|tg s0|s0].
+    1,2,4,5,6: destruct Hh as [z [B' [EB [He Ht]]]]; rewrite EB;
+      apply token_eqb_eq in He; subst z;
+      (destruct (str_empty s) eqn:Es; [rewrite <- EB; exact IH|]);
+      cbn [tprefix]; rewrite !token_eqb_refl; cbn [andb]; exact Ht.
+    destruct Hh as [s' [B' [EB Hc]]]. rewrite EB. destruct Hc as [[-> Hp]|[-> Ht]].
+    + cbn [tprefix]. now rewrite prefix_append_l.
+    + cbn [tprefix]. destruct A' as [|z A'']; [now rewrite prefix_refl|].
+      rewrite token_eqb_refl. cbn [andb]. exact Ht.
+Qed.
+
+Lemma split_calls_toks l rest :
+  (match rest with CTok (Some _) :: _ => False | _ => True end) ->
+  split_calls (map (fun x => CTok (Some x)) l ++ rest) = (l, rest).
+Proof.
+  intros Hr. induction l as [|x r IH]; cbn [map app split_calls].
+  - destruct rest as [|[[t|]| |] rest']; try reflexivity. destruct Hr.
+  - now rewrite IH.
+Qed.
+
+Lemma forallb_repeat_eof m : forallb (ocall_eqb CEof) (repeat CEof m) = true.
+Proof. induction m; cbn; [reflexivity|assumption]. Qed.
+
+Lemma firstn_repeat_le {A : Type} (x : A) m k : m <= k -> firstn m (repeat x k) = repeat x m.
+Proof.
+  revert k. induction m as [|m IH]; intros k H; [reflexivity|].
+  destruct k as [|k]; [lia|]. cbn [repeat firstn]. f_equal. apply IH. lia.
+Qed.
+
+(** ...so what the model's reader delivers — [k] calls on a reader of a captured
+    tree, whatever other readers do ([run_product_captured]) — meets the
+    specification of the interleaving stage for every document and every [k]. *)
+Lemma calls_ok_model l k :
+  calls_ok l (firstn k (map (fun x => CTok (Some x)) (strip_stream l) ++ repeat CEof k)) = true.
+Proof.
+  unfold calls_ok. set (l' := strip_stream l).
+  destruct (Nat.le_gt_cases k (List.length l')) as [Hk|Hk].
+  - rewrite firstn_app. rewrite map_length.
+    replace (k - List.length l') with 0 by lia. cbn [firstn]. rewrite app_nil_r, firstn_map.
+    pose proof (split_calls_toks (firstn k l') [] I) as Hs. rewrite app_nil_r in Hs. rewrite Hs.
+    rewrite <- (norm_stream_strip l). apply tprefix_firstn.
+  - rewrite firstn_app, map_length. rewrite firstn_all2 by (rewrite map_length; lia).
+    rewrite firstn_repeat_le by lia.
+    destruct (k - List.length l') as [|m] eqn:Em; [lia|]. cbn [repeat].
+    rewrite (split_calls_toks l' (CEof :: repeat CEof m) I).
+    unfold l'. rewrite norm_stream_strip.
+    rewrite forallb_repeat_eof, Bool.andb_true_r. now apply tokens_eqb_eq.
+Qed.
+
+(** ** The tree normal form and the stream normal form are the same thing *)
+
+Lemma norm_stream_app_other l x r :
+  (forall s, x <> TText s) -> norm_stream (l ++ x :: r) = norm_stream l ++ norm_stream (x :: r).
+Proof.
+  intros Hx. induction l as [|y l' IH]; [reflexivity|]. cbn [app].
+  destruct y as [n a|n|s|s|tg s|s]; cbn [norm_stream app]; rewrite IH; try reflexivity.
+  destruct (norm_stream l') as [|z l''] eqn:E.
+  - cbn [app]. destruct x as [n a|n|s0|s0|tg s0|s0]; cbn [norm_stream];
+      try (destruct (str_empty s); reflexivity). exfalso. now apply (Hx s0).
+  - cbn [app]. destruct z; try (destruct (str_empty s); reflexivity).
+Qed.
+
+Definition norm_forest_ok (f : list xtree) : Prop :=
+  forest_tokens (merge_text (map norm f)) = norm_stream (forest_tokens f).
+
+Lemma norm_forest_ok_of f :
+  Forall (fun t => match t with Elem _ _ cs => norm_forest_ok cs | _ => True end) f -> norm_forest_ok f.
+Proof.
+  unfold norm_forest_ok. induction 1 as [|t r Ht _ IH]; [reflexivity|].
+  unfold forest_tokens in *. cbn [map flat_map].
+  destruct t as [n a cs|s|s|tg s|s]; cbn [norm merge_text flat_map tokens app norm_stream];
+    try (now rewrite IH).
+  - rewrite IH. rewrite <- app_assoc. cbn [app]. f_equal. rewrite Ht.
+    rewrite <- (app_assoc _ [TEnd n]). cbn [app].
+    rewrite norm_stream_app_other by (intros ?; discriminate). reflexivity.
+  - rewrite <- IH. destruct (merge_text (map norm r)) as [|y r'] eqn:E; cbn [flat_map].
+    + destruct (str_empty s); reflexivity.
+    + destruct y as [n a cs|s'|s'|tg s'|s']; cbn [flat_map tokens app];
+        try (destruct (str_empty s); reflexivity).
+Qed.
+
+Lemma norm_forest_tokens f : forest_tokens (norm_forest f) = norm_stream (forest_tokens f).
+Proof.
+  apply norm_forest_ok_of. rewrite Forall_forall. intros t _.
+  induction t as [n a cs IH| | | |] using xtree_ind2; try exact I.
+  now apply norm_forest_ok_of.
+Qed.
+
+(** "Same element tree" is equality of the streams in normal form: namespace
+    declarations and the cutting of character data are the only things it
+    forgets. *)
+Lemma same_forest_norm_stream f g :
+  same_forest f g = list_eqb token_eqb (norm_stream (forest_tokens f)) (norm_stream (forest_tokens g)).
+Proof. unfold same_forest. now rewrite !norm_forest_tokens. Qed.
